@@ -66,13 +66,14 @@ theorem spec_inet {c : Case} (w : c.wf = true) {hb : Host} {port : Str} (whb : h
   have hctl := ctlOf_inet c.ns (sock_ne_unix c.scheme) whb fp
   have hlive := isLive_inet (sock_ne_unix c.scheme) whb fp
   have hne := ctl_inet_ne_none c.ns (h := hb.bare) (p := port) (sock_cases c.scheme)
-  simp only [specDial, w, ht, observe, Case.expPlan, he, hnet, hctl, hlive, Target.live]
+  have hctlT := ctlOf_inet c.ns (net := sTcp) (by decide) whb fp
+  simp only [specDial, w, ht, observe, Case.expPlan, he, hnet, hctl, hlive, Target.live, expectedCtl]
   cases hs : c.scheme <;> rw [hs] at hne <;>
     simp [hs, Scheme.proto, Scheme.isH3, Scheme.tlsBased, Scheme.quicBased, Case.expServerName,
-      Case.expHttpHost] <;>
+      Case.expHttpHost, Scheme.tcpRetry, hctlT] <;>
     first
       | exact ⟨Or.inr hne, hne⟩
-      | (by_cases hp : port = sPORT <;> simp [hp])
+      | (by_cases hp : port = sPORT <;> simp [hp] <;> simp [hp] at hne <;> simp [hne])
 
 /-- ... and whenever it goes to an abstract unix socket (stream based schemes) -/
 theorem spec_unix {c : Case} (w : c.wf = true) {n : Str} (hd : c.dial = .unix n)
@@ -81,10 +82,10 @@ theorem spec_unix {c : Case} (w : c.wf = true) {n : Str} (hd : c.dial = .unix n)
   have ht : c.target = .unix ('@' :: n) := by simp [Case.target, hd, hst]
   have he : c.expDial = '@' :: n := by simp [Case.expDial, hd]
   have hnet : c.expNet = sUnix := by simp [Case.expNet, hd, hst]
-  simp only [specDial, w, ht, observe, Case.expPlan, he, hnet, ctlOf, isLive, Target.ctl, Target.live]
+  simp only [specDial, w, ht, observe, Case.expPlan, he, hnet, ctlOf, isLive, Target.live]
   cases hs : c.scheme <;> simp [hs, Scheme.stream] at hst <;>
     simp [hs, Scheme.proto, Scheme.isH3, Scheme.tlsBased, Scheme.quicBased, Case.expServerName,
-      Case.expHttpHost] <;>
+      Case.expHttpHost, Scheme.tcpRetry, expectedCtl, Target.ctl] <;>
     (by_cases hp : n = ['U', 'N', 'I', 'X'] <;> simp [hp, sUNIX])
 
 /-- ★ the model satisfies the executable specification on every case -/
